@@ -127,9 +127,9 @@ func (c *Collection) ExplainQuery(statement string, args map[string]any) (plan m
 func (c *Collection) prepareQuery(statement string, args map[string]any) (string, []any) {
 	// Replace `$_keyspace` with a sub-query matching documents in this collection:
 	statement = strings.Replace(statement, sgbucket.KeyspaceQueryToken, "_keyspace", -1)
-	// (The body is handed to the query as TEXT: SQLite's JSON functions take any BLOB for its binary JSONB format,
-	// and some short JSON texts, e.g. `{"ab":1}`, happen to pass for valid JSONB meaning something else.)
-	statement = fmt.Sprintf(`WITH _keyspace as (SELECT key as id, CAST(value AS TEXT) as body, xattrs
+	// (Body and xattrs are handed to the query as TEXT: SQLite's JSON functions take any BLOB for its binary JSONB
+	// format, and some short JSON texts, e.g. `{"ab":1}`, happen to pass for valid JSONB meaning something else.)
+	statement = fmt.Sprintf(`WITH _keyspace as (SELECT key as id, CAST(value AS TEXT) as body, CAST(xattrs AS TEXT) as xattrs
 							 FROM documents WHERE collection=%d AND value NOT NULL) %s`,
 		c.id, statement)
 	// Convert the args to an array of sql.NamedArg values:
